@@ -414,6 +414,42 @@ class Tr:
         return in_finally
 
 
+def sig_figs_method(tr, which):
+    """Settings.set_sig_figs_for_<which>(n): FIRST `self.sig_fig_value = n` (the validating
+    setter: a rejected number must leave the mode untouched), THEN the mode; the module-level
+    function forwards to it.  Returns the member name of SigFigMode that is assigned."""
+    from tr._shape import same_shape, fresh
+    name = "set_sig_figs_for_" + which
+    cls = tr.settings_class()
+    fn = next((f for f in cls.body if isinstance(f, ast.FunctionDef) and f.name == name), None)
+    if fn is None:
+        raise Unsupported("{}: Settings.{} missing".format(PATH, name))
+    fn = fresh(fn)
+    body = [s for s in fn.body if not (isinstance(s, ast.Expr) and isinstance(s.value, ast.Constant))]
+    last = body[-1] if body else None
+    mode = None
+    if isinstance(last, ast.Assign) and isinstance(last.value, ast.Attribute) and isinstance(
+            last.value.value, ast.Name) and last.value.value.id == "SigFigMode":
+        mode = last.value.attr
+        last.value = ast.Name(id="CUT_MODE", ctx=ast.Load())
+    if mode is None or mode not in [n for n, _ in tr.members.get("SigFigMode", [])]:
+        raise Unsupported("{}: Settings.{} does not end by assigning a SigFigMode member".format(
+            where(fn, PATH), name))
+    same_shape(fn, """
+def {}(self, new_sig_figs):
+    self.sig_fig_value = new_sig_figs
+    self.__config[lit.SIG_FIGS][lit.SIG_FIG_MODE] = CUT_MODE
+""".format(name), PATH, "Settings." + name)
+    top = next((f for f in tr.tree.body if isinstance(f, ast.FunctionDef) and f.name == name), None)
+    if top is None:
+        raise Unsupported("{}: def {} missing".format(PATH, name))
+    same_shape(fresh(top), """
+def {0}(new_sig_figs):
+    get_settings().{0}(new_sig_figs)
+""".format(name), PATH, name)
+    return mode
+
+
 def gen():
     tr = Tr()
     tr.enums()
@@ -454,6 +490,12 @@ def gen():
         in_finally = tr.temp_wrapper()
     except Unsupported as e:
         tr.broken.append(str(e))
+    sig_modes = {"value": "", "error": ""}
+    for which in ("value", "error"):
+        try:
+            sig_modes[which] = sig_figs_method(tr, which)
+        except Unsupported as e:
+            tr.broken.append(str(e))
 
     all_fields = ["errorMethod", "printStyle", "unitStyle", "sigMode", "sigVal", "mcSize", "plotW", "plotH"]
     defaults = {"errorMethod": "0", "printStyle": "0", "unitStyle": "0", "sigMode": "0", "sigVal": "0",
@@ -508,6 +550,11 @@ def setterStrings : EnumTy → List String
 def sigValLower : Int := {svl}
 def mcSizeLower : Int := {mcl}
 
+/-- `set_sig_figs_for_value` / `set_sig_figs_for_error`: the SigFigMode member assigned AFTER the
+    number went through the validating `sig_fig_value` setter -/
+def sigFigsValueMode : String := {sfv}
+def sigFigsErrorMode : String := {sfe}
+
 /-- `plot_dimensions` setter: required tuple length, exclusive lower bound of each entry, and
     whether the comparison is written so that NaN is refused (`not num > c`) or passes (`num <= c`) -/
 def plotLen : Nat := {plen}
@@ -530,6 +577,7 @@ end QExPy.Settings.Gen
            sv=arm(lambda own: "." + ENUMS[own], lambda s: "." + ENUMS[s[1]]),
            ss=arm(lambda own: "[]", lambda s: lean_strlist(s[2])),
            init=init_txt, reset=reset_def, fin="true" if in_finally else "false",
+           sfv=lean_str(sig_modes["value"]), sfe=lean_str(sig_modes["error"]),
            svl="({})".format(ints["sigValLower"]), mcl="({})".format(ints["mcSizeLower"]),
            plen=plot[0], plow="({})".format(plot[1]), pnan="true" if plot[2] else "false")
     return "Settings.lean", text, tr.broken
